@@ -218,6 +218,9 @@ func genEscape(c *ctx) {
 		}
 		// streaming reader over random splits of the escaped stream and of raw data
 		for _, in := range [][]byte{esc, d} {
+			if len(in) == 0 {
+				continue
+			}
 			for k := 0; k < 3; k++ {
 				cs := c.split(in, 1+c.rng.Intn(6))
 				nsz := c.rng.Intn(4)
@@ -237,7 +240,17 @@ func genEscape(c *ctx) {
 				if splitsPair {
 					c.count("reader:chunk-ends-in-leader")
 				}
-				c.emit(splitsPair, "er_run", runReader(t, cs, sizes, dflt), ta, hxs(cs), ints(sizes), fmt.Sprint(dflt))
+				res := runReader(t, cs, sizes, dflt)
+				c.emit(splitsPair, "er_run", res, ta, hxs(cs), ints(sizes), fmt.Sprint(dflt))
+				if kind != "any-table" && &in[0] == &esc[0] {
+					// direct oracle: the streaming reader returns exactly the payload, for this split
+					want := strings.ReplaceAll(hx(d), "-", "") + ":eof"
+					got := strings.ReplaceAll(strings.ReplaceAll(res, ",", ""), "-", "")
+					if got != want {
+						c.violate("stream-roundtrip", "escapeReader over a split escaped stream does not return the payload",
+							fmt.Sprintf("table=%s data=%s chunks=%s sizes=%s dflt=%d got=%s", ta, hx(d), hxs(cs), ints(sizes), dflt, res))
+					}
+				}
 			}
 		}
 		// writer
